@@ -4,7 +4,7 @@ from html.parser import HTMLParser
 from pcv import core, capio, sccgen
 
 P = "PcVerif.Props.C11."
-THEOREMS = [P + t for t in ["reader_nodes_balanced", "scc_reader_italics_balanced", "no_span_left_open", "dfxpText_flag", "dfxp_span_closed", "vtt_tags_mirror", "vtt_cues_balanced"]]
+THEOREMS = [P + t for t in ["reader_nodes_balanced", "scc_reader_italics_balanced", "no_span_left_open", "dfxpText_flag", "dfxp_span_closed", "vtt_tags_mirror", "vtt_cues_balanced", "sami_style_flags", "sami_style_flags_any_order"]]
 WORDS = ["hello", "world", "caption", "I", "a", "quick", "fox", "Q&A", "x<y", "two"]
 STY = {"i": "italics", "b": "bold", "u": "underline"}
 
@@ -327,6 +327,40 @@ def explore(chk):
         got, bal = node_flags(rn)
         if not bal or got != want:
             chk.property_failure(dict(case, read_nodes=str(rn)[:500]), "SAMI reader: the italic / bold / underline of a span depends on where in the Style attribute it is declared")
+    # ---- `SAMIReader._translate_style` against its model (Model/SamiInline.lean, theorems sami_style_flags*): style attributes
+    #      made of well-formed and ill-formed declarations in any order, from a reader with and without a saved alignment
+    isub = chk.sub("sami_inline_style_correspondence")
+    PIECES = ["font-style:italic", "font-style: italic ", "font-style:oblique", " font-style:italic", "font-style :italic", "FONT-STYLE:italic", "font-style:Italic",
+              "font-weight:bold", "font-weight: bold", "font-weight:700", "text-decoration:underline", "text-decoration:\tunderline", "text-decoration:none",
+              "text-align:center", "text-align: right ", "text-align:justify", "text-align:", "text-align:left", "color:yellow", "color: #ff0000 ", "color:",
+              "font-family:Arial, sans", "font-size:12px", "lang:en-US", "lang: fr ", "", " ", "italic", "a:b:c", "font-style:italic:x", ":", "x:y", "font-style:\u00a0italic\u2003"]
+    from pycaption.geometry import Alignment, HorizontalAlignmentEnum
+    b2 = core.Batch(); jobs2 = []
+    for k_ in range(150 if chk.tier == "quick" else 6000):
+        style = ";".join(isub.choice(PIECES) for _ in range(isub.randint(0, 5)))
+        saved = isub.choice([None, None, "left", "end"])
+        jobs2.append((style, saved, b2.add("sami.inlinestyle", "N" if saved is None else core.enc(saved), core.enc(style))))
+    out2 = b2.run() if chk.driver_ok else None
+    for style, saved, o_ in jobs2:
+        rd = pycaption.SAMIReader()
+        rd.first_alignment = None if saved is None else Alignment(HorizontalAlignmentEnum(saved), None)
+        case = {"style_attribute": style, "saved_alignment": saved}
+        chk.case(key=("sami-inline", style, saved), nontrivial=":" in style); chk.count("sami_inline_styles")
+        try:
+            attrs = rd._translate_style({}, style.split(";"))
+        except Exception as e:
+            chk.property_failure(dict(case, error=repr(e)[:200]), "SAMIReader._translate_style raised"); continue
+        al = rd.first_alignment
+        I = ["1" if attrs.get(x) is True else "0" for x in ("italics", "bold", "underline")] + \
+            [core.enc(attrs[x]) if x in attrs else "N" for x in ("font-family", "font-size", "lang", "color")] + \
+            ["N" if al is None else core.enc(al.horizontal.value if al.horizontal is not None else "?")]
+        extra = sorted(set(attrs) - {"italics", "bold", "underline", "font-family", "font-size", "lang", "color"})
+        # S: the flags, from the property's point of view -- a declaration `font-style:italic` anywhere in the list makes the span italic
+        want_i = any(p.split(":")[0] == "font-style" and len(p.split(":")) == 2 and p.split(":")[1].strip() == "italic" for p in style.split(";"))
+        if (attrs.get("italics") is True) != want_i:
+            chk.property_failure(dict(case, attrs=str(attrs)), "SAMI inline style: the italics of a span depend on more than the presence of a `font-style:italic` declaration")
+        if out2 is not None and (";".join(I) != out2[o_] or extra):
+            chk.correspondence_failure(dict(case, impl=";".join(I), model=out2[o_], other_keys=extra), "SAMIReader._translate_style: implementation and model differ")
     # ---- a span that names a class of the caption set AND is italic by itself, through the DFXP writer and reader: whatever the
     #      class says, the characters stay italic
     csub = chk.sub("class_and_inline_italics")
